@@ -6,6 +6,7 @@ import StepupModel.Drv.C04
 import StepupModel.Drv.C05
 import StepupModel.Drv.C06
 import StepupModel.Drv.C07
+import StepupModel.Drv.C12
 import StepupModel.Drv.C14
 import StepupModel.Drv.C19
 import StepupModel.Drv.C13
@@ -30,6 +31,7 @@ def dispatch (sess : Drv.K.Session) (line : String) : Drv.K.Session × String :=
   | "c05" :: rest => (sess, (Drv.C05.handle rest).getD "bad-op")
   | "c06" :: rest => (sess, (Drv.C06.handle rest).getD "bad-op")
   | "c07" :: rest => (sess, (Drv.C07.handle rest).getD "bad-op")
+  | "c12" :: rest => (sess, (Drv.C12.handle rest).getD "bad-op")
   | "c14" :: rest => (sess, (Drv.C14.handle rest).getD "bad-op")
   | "c19" :: rest => (sess, (Drv.C19.handle rest).getD "bad-op")
   | "c13" :: rest => (sess, (Drv.C13.handle rest).getD "bad-op")
